@@ -45,6 +45,16 @@ func c04points(rng *rand.Rand) (names []string, pts []*big.Int) {
 	add("random-in-domain", big.NewInt(int64(rng.Intn(256))))
 	add("random-out-of-domain", new(big.Int).Add(big.NewInt(256), randBig(rng, new(big.Int).Sub(r, big.NewInt(256)))))
 	add("random-small-out", big.NewInt(int64(256+rng.Intn(100000))))
+	// multi-limb points whose low limb looks like a domain index, limb-structured and Montgomery-small points
+	for _, sh := range []uint{64, 128, 192} {
+		v := new(big.Int).Lsh(bigOne, sh)
+		add(fmt.Sprintf("2^%d+k", sh), new(big.Int).Add(v, big.NewInt(int64(rng.Intn(256)))))
+	}
+	add("2^64+256", new(big.Int).Add(new(big.Int).Lsh(bigOne, 64), big.NewInt(256)))
+	add("k*2^64", new(big.Int).Lsh(big.NewInt(int64(1+rng.Intn(1000))), 64))
+	add("montgomery-small", new(big.Int).Mod(new(big.Int).Mul(big.NewInt(int64(1+rng.Intn(300))), rInvFr), r))
+	es := edgeScalars()
+	add("edge-scalar", new(big.Int).Set(es[rng.Intn(len(es))]))
 	return
 }
 
